@@ -56,9 +56,9 @@ type evt struct {
 }
 
 type recorder struct {
-	mu    sync.Mutex
-	evs   []*evt
-	onEnd func(e evt) // called outside the lock after an event was closed
+	mu      sync.Mutex
+	evs     []*evt
+	onBegin func(e evt) // called outside the lock when a call was recorded (schedule control)
 }
 
 func (r *recorder) begin(inc int, layer, op, key string) *evt {
@@ -66,7 +66,12 @@ func (r *recorder) begin(inc int, layer, op, key string) *evt {
 	r.mu.Lock()
 	e.Call = inject.Seq()
 	r.evs = append(r.evs, e)
+	cp := *e
+	f := r.onBegin
 	r.mu.Unlock()
+	if f != nil {
+		f(cp)
+	}
 	return e
 }
 
@@ -81,12 +86,7 @@ func (r *recorder) end(e *evt, size int64, err error) {
 			e.Err = e.Err[:120]
 		}
 	}
-	cp := *e
-	f := r.onEnd
 	r.mu.Unlock()
-	if f != nil {
-		f(cp)
-	}
 }
 
 func (r *recorder) snapshot() []evt {
